@@ -44,6 +44,12 @@ func TestVerif(t *testing.T) {
 				} else {
 					applyCase(c["line"])
 				}
+			case "S":
+				var sd, cl, rd uint64
+				fmt.Sscan(c["seed"], &sd)
+				fmt.Sscan(c["callers"], &cl)
+				fmt.Sscan(c["rounds"], &rd)
+				stressMerge(sd, int(cl), int(rd))
 			case "M":
 				var mc MergeCase
 				if err := json.Unmarshal([]byte(c["case"]), &mc); err != nil {
@@ -85,11 +91,16 @@ func TestVerif(t *testing.T) {
 		nx += exploreMerge(t, 3, 3, 800000) + exploreMerge(t, 4, 2, 400000) + exploreMerge(t, 5, 1, 400000)
 	}
 	run.Extra["merge_schedules_enumerated"] = nx
+	// free-running stress of the real Merge/Pool (lock-region interleavings under the Go scheduler)
+	rs := r.Fork()
+	for i := 0; i < run.Scale(30, 600); i++ {
+		stressMerge(rs.U64(), 2+rs.Intn(7), 1+rs.Intn(20))
+	}
 	// every release order of the HTTP exchanges of 2 (thorough: 3) concurrent operations
 	// on one subject with a pre-existing referrer, with at most one injected index failure
 	ex := 0
 	for _, skip := range []bool{false, true} {
-		for _, kinds := range [][]string{{"push", "push"}, {"push", "delete"}, {"delete", "delete"}} {
+		for _, kinds := range [][]string{{"push", "push"}, {"push", "delete"}, {"delete", "delete"}, {"repush", "delete"}} {
 			ex += exploreE2E(t, kinds, skip, 1, run.Scale(400, 20000))
 		}
 		if run.Thorough() {
@@ -103,6 +114,30 @@ func TestVerif(t *testing.T) {
 	re := r.Fork()
 	for i := 0; i < ne; i++ {
 		e2eCase(t, genE2E(re, run.Thorough()))
+	}
+	// coverage floors: a stream that produced nothing is a broken check, not a pass
+	floors := map[string]int{"A/apply/": 1000, "A/remove-empty": 50, "A/filter": 50, "T/tag": 50, "K/caps": 5, "M/callers=": 100, "S/stress": 20,
+		"E/ops=": 100, "X/projected": 100, "L/listing": 100, "D/decoration": 50, "E/same-manifest-overlap": 5,
+		"E/fault/idx-": 20, "E/outcome=idxdel": 3, "E/outcome=err": 10, "E/skipgc": 10, "E/subjects=2": 5, "E/subjects=3": 5}
+	if run.Thorough() {
+		floors["E/shared-index-drop"] = 20
+		floors["E/fault/man-"] = 20
+		floors["E/fault/idx-put/lost"] = 20
+		floors["E/fault/idx-del/404"] = 20
+	}
+	for prefix, min := range floors {
+		n := 0
+		for k, v := range run.Dist {
+			if strings.HasPrefix(k, prefix) {
+				n += v
+			}
+		}
+		if n < min {
+			t.Errorf("coverage floor: %q produced %d cases (< %d)", prefix, n, min)
+		}
+	}
+	if nx < 50 || ex < 100 {
+		t.Errorf("coverage floor: %d merge schedules, %d end-to-end schedules enumerated", nx, ex)
 	}
 }
 
@@ -132,6 +167,27 @@ func e2eCase(t *testing.T, c *E2ECase) {
 	run.Count(fmt.Sprintf("E/faults=%d", nfail))
 	if c.SkipGC {
 		run.Count("E/skipgc")
+	}
+	for _, rd := range c.Rounds {
+		seen := map[int]bool{}
+		for _, o := range rd {
+			if seen[o.Man] {
+				run.Count("E/same-manifest-overlap")
+			}
+			seen[o.Man] = true
+		}
+	}
+	for _, e := range res.Events {
+		if len(e.Dropped) > 0 {
+			run.Count("E/shared-index-drop")
+		}
+		if e.Fail {
+			k := e.Kind
+			if k == "" {
+				k = fmt.Sprint(e.Status)
+			}
+			run.Count("E/fault/" + e.Class + "/" + k)
+		}
 	}
 	for _, o := range res.Ops {
 		run.Count("E/outcome=" + o.Outcome)
@@ -182,11 +238,57 @@ func e2eCase(t *testing.T, c *E2ECase) {
 				if m.Kind == "image" {
 					cfg = typeID(m.ConfigMT)
 				}
+				run.Count("D/decoration")
 				run.Case(run.NewID(), fmt.Sprintf("D %s %d %d", m.Kind, typeID(m.ArtifactType), cfg), fmt.Sprintf("D %d", typeID(it.ArtifactType)))
+			}
+		}
+		// L lines: Referrers() through the tag schema = the model's list_referrers of the final index
+		for s := 0; s < c.NSubjects; s++ {
+			ents := "none"
+			if res.IndexTagged[s] != nil {
+				var es []string
+				for i, k := range res.IndexTagged[s] {
+					key := k + 1
+					if k == -1 {
+						key = 0
+					} else if k < 0 {
+						key = 999
+					}
+					es = append(es, fmt.Sprintf("%d:%d:0", key, typeID(res.IndexArts[s][i])))
+				}
+				ents = "-"
+				if len(es) > 0 {
+					ents = strings.Join(es, ",")
+				}
+			}
+			keysOfItems := func(l Listing) string {
+				var ks []string
+				for _, it := range l.Items {
+					switch {
+					case it.Digest == "":
+						ks = append(ks, "0")
+					case it.Man < 0:
+						ks = append(ks, "999")
+					default:
+						ks = append(ks, fmt.Sprint(it.Man+1))
+					}
+				}
+				if len(ks) == 0 {
+					return "-"
+				}
+				return strings.Join(ks, ",")
+			}
+			if res.Listings[s].Err == "" {
+				run.Count("L/listing")
+				run.Case(run.NewID(), fmt.Sprintf("L 0 %s", ents), "L "+keysOfItems(res.Listings[s]))
+			}
+			if res.FilterType != "" && res.Filtered[s].Err == "" {
+				run.Case(run.NewID(), fmt.Sprintf("L %d %s", typeID(res.FilterType), ents), "L "+keysOfItems(res.Filtered[s]))
 			}
 		}
 		for s := 0; s < c.NSubjects; s++ {
 			if in, obs, ok := xLine(c, res, s); ok {
+				run.Count("X/projected")
 				run.Case(run.NewID(), in, obs)
 				run.TracesAgainstImpl++
 			}
@@ -213,6 +315,7 @@ func (c *E2ECase) clone() *E2ECase {
 // implementation's observable (results of the callers, final index).
 func xLine(c *E2ECase, res *E2EResult, s int) (string, string, bool) {
 	local := map[int]int{}
+	notEntered := map[int]bool{}
 	var specs, rs []string
 	for _, ops := range c.Rounds {
 		for _, o := range ops {
@@ -224,8 +327,32 @@ func xLine(c *E2ECase, res *E2EResult, s int) (string, string, bool) {
 			if o.Kind == "delete" {
 				sign = "~"
 			}
-			specs = append(specs, fmt.Sprintf("%s%d:0:0", sign, o.Man+1))
-			rs = append(rs, fmt.Sprintf("%d=%s", len(rs), res.Ops[o.ID].Outcome))
+			// a Delete that got past the index update (its manifest DELETE was issued) and then
+			// failed reports the manifest-level error; the result of its index update is not
+			// observable any more: marked (payload 9), printed as "*" by both sides
+			hidden := false
+			if o.Kind == "delete" && res.Ops[o.ID].Outcome == "err" {
+				for _, e := range res.Events {
+					if e.Op == o.ID && e.Class == "man-del" {
+						hidden = true
+					}
+				}
+			}
+			// an operation whose own manifest exchange failed (e.g. Delete of a manifest that a
+			// concurrent Delete has just removed: 404 on the fetch) never reaches the index update
+			for _, e := range res.Events {
+				if e.Op == o.ID && (e.Class == "man-get" || e.Class == "man-put") && e.Status >= 400 {
+					hidden = true
+					notEntered[o.ID] = true
+				}
+			}
+			if hidden {
+				specs = append(specs, fmt.Sprintf("%s%d:0:9", sign, o.Man+1))
+				rs = append(rs, fmt.Sprintf("%d=*", len(rs)))
+			} else {
+				specs = append(specs, fmt.Sprintf("%s%d:0:0", sign, o.Man+1))
+				rs = append(rs, fmt.Sprintf("%d=%s", len(rs), res.Ops[o.ID].Outcome))
+			}
 		}
 	}
 	if len(specs) == 0 {
@@ -255,6 +382,12 @@ func xLine(c *E2ECase, res *E2EResult, s int) (string, string, bool) {
 	for _, e := range res.Events {
 		t, ok := local[e.Op]
 		if !ok {
+			// an exchange of another subject's operation that took this subject's tag away
+			for _, d := range e.Dropped {
+				if d == s {
+					evs = append(evs, "E")
+				}
+			}
 			continue
 		}
 		if e.Class == "idx-put" {
@@ -268,9 +401,14 @@ func xLine(c *E2ECase, res *E2EResult, s int) (string, string, bool) {
 		if e.Fail {
 			f = 1
 		}
+		if e.Kind == "lost" {
+			f = 2 // took effect but answered 500: outside the model's fault assumption, line not judged
+		}
 		switch e.Class {
 		case "man-put", "man-get":
-			evs = append(evs, fmt.Sprintf("G%d", t))
+			if !notEntered[e.Op] {
+				evs = append(evs, fmt.Sprintf("G%d", t))
+			}
 		case "idx-get":
 			evs = append(evs, fmt.Sprintf("P%d:%d", t, f))
 		case "idx-put":
@@ -279,22 +417,55 @@ func xLine(c *E2ECase, res *E2EResult, s int) (string, string, bool) {
 			evs = append(evs, fmt.Sprintf("D%d:%d", t, f))
 		}
 	}
-	sg := 0
+	sg := "0"
 	if c.SkipGC {
-		sg = 1
+		sg = "1"
+	}
+	dg := fmt.Sprint(res.DanglingOf[s])
+	// an index without a single referrer (empty, or zero descriptors only) may be ONE manifest
+	// shared with other tags: whether it dangles is not a per-tag notion
+	sharedIdx := false
+	if c.PreIndex[s] != nil {
+		sharedIdx = true
+		for _, k := range c.PreIndex[s] {
+			if k >= 0 {
+				sharedIdx = false
+			}
+		}
+	}
+	for _, pb := range puts {
+		if pb == "e" {
+			sharedIdx = true
+		}
+	}
+	for _, e := range evs {
+		if e == "E" {
+			sharedIdx = true
+		}
+	}
+	for _, e := range res.Events {
+		if _, ok := local[e.Op]; ok && e.Class == "idx-del" && e.Status == 404 {
+			sharedIdx = true
+		}
+	}
+	if c.DistinctPre || sharedIdx {
+		// the annotated pre-existing index never equals a generated one (the model compares
+		// contents): the count of dangling indexes is not compared
+		sg += "d"
+		dg = "*"
 	}
 	// the last token carries the whole end-to-end case (with the recorded schedule) so that a
 	// mismatch on this projected line can be re-run under the oracle (bin/check --replay)
 	rc := c.clone()
 	rc.Decisions = res.Decisions
 	js, _ := json.Marshal(rc)
-	in := fmt.Sprintf("X %d %s %s %s J%s", sg, keyList(c.PreIndex[s]), strings.Join(specs, ","), strings.Join(evs, " "), hex.EncodeToString(js))
+	in := fmt.Sprintf("X %s %s %s %s J%s", sg, keyList(c.PreIndex[s]), strings.Join(specs, ","), strings.Join(evs, " "), hex.EncodeToString(js))
 	// the body of every index PUT (the batch applied to the index that was fetched) is observable too
 	ps := "-"
 	if len(puts) > 0 {
 		ps = strings.Join(puts, ";")
 	}
-	obs := fmt.Sprintf("ACC R %s I %s U %s", strings.Join(rs, ","), keyList(res.IndexTagged[s]), ps)
+	obs := fmt.Sprintf("ACC R %s I %s U %s G %s", strings.Join(rs, ","), keyList(res.IndexTagged[s]), ps, dg)
 	return in, obs, true
 }
 
@@ -308,7 +479,10 @@ func exploreE2E(t *testing.T, kinds []string, skipGC bool, maxFaults, limit int)
 	var ops []Op
 	del := 0
 	for i, k := range kinds {
-		if k == "delete" && del < 2 {
+		if k == "repush" {
+			// the live, listed manifest 0 is pushed again (concurrently with whatever else names it)
+			ops = append(ops, Op{ID: i, Kind: "push", Man: 0})
+		} else if k == "delete" && del < 2 {
 			ops = append(ops, Op{ID: i, Kind: "delete", Man: del})
 			del++
 		} else {
